@@ -62,11 +62,24 @@ func (it *Interp) deepCopyMsg(v Value, normalize bool) Value {
 			return SliceV{}
 		}
 		el := sliceElems(x)
-		arr := &ArrayV{E: make([]Value, len(el))}
+		// gogoproto unmarshals a bytes field with append(m.F[:0], wire...): the fresh backing array has the
+		// capacity of Go's allocation size class (see unmarshalByteCap in models_yoda.go)
+		ncap := len(el)
+		if normalize {
+			ncap = unmarshalByteCap(el)
+		}
+		arr := &ArrayV{E: make([]Value, ncap)}
 		for i, e := range el {
 			arr.E[i] = it.deepCopyMsg(e, normalize)
+			if sv, ok := arr.E[i].(SliceV); ok && normalize {
+				sv.Cap = sv.Len // repeated bytes: make([]byte, n) + copy
+				arr.E[i] = sv
+			}
 		}
-		return SliceV{O: it.newObj(arr, "msgslice"), Len: len(el), Cap: len(el)}
+		for i := len(el); i < ncap; i++ {
+			arr.E[i] = it.C.BVU(0, 8)
+		}
+		return SliceV{O: it.newObj(arr, "msgslice"), Len: len(el), Cap: ncap}
 	case PtrV:
 		if x.O == nil {
 			return x
